@@ -248,6 +248,14 @@ def make_probes(rng, declared, kinds, removed):
         out.append(("window-expression-of-agg", "extend", {"ops": {nv: f"{c}.sum() + 1"}, "partition_by": [c2]}, None, "-"))
         out.append(("window-scalar-method", "extend", {"ops": {nv: f"{c}.abs()"}, "partition_by": [c2]}, None, "-"))
         out.append(("window-arith", "extend", {"ops": {nv: f"{c} + 1"}, "partition_by": [c2]}, None, "-"))
+        # the same five shapes for the other two ways a window is declared: order_by alone, and partition_by=1
+        for wname, wargs in (("orderonly", {"order_by": [c2]}), ("orderonly-rev", {"order_by": [c2], "reverse": [c2]}),
+                             ("part1", {"partition_by": 1})):
+            out.append((f"window-plain-column@{wname}", "extend", dict({"ops": {nv: f"{c}"}}, **wargs), None, "-"))
+            out.append((f"window-agg-of-expression@{wname}", "extend", dict({"ops": {nv: f"({c} + 1).sum()"}}, **wargs), None, "-"))
+            out.append((f"window-expression-of-agg@{wname}", "extend", dict({"ops": {nv: f"{c}.sum() + 1"}}, **wargs), None, "-"))
+            out.append((f"window-scalar-method@{wname}", "extend", dict({"ops": {nv: f"{c}.abs()"}}, **wargs), None, "-"))
+            out.append((f"window-arith@{wname}", "extend", dict({"ops": {nv: f"{c} + 1"}}, **wargs), None, "-"))
     # --- join checks / concat
     if c2:
         out.append(("join-check-non-key-common", "natural_join", {"on": [c], "jointype": "left", "check": True},
